@@ -194,6 +194,46 @@ def constructed_mutations(depth):
                                             MU.DeleteModel('Item')]))
     out.append(('RenameAppLabel', [MU.RenameAppLabel(
         'va', 'vz', legacy_app_label='va')]))
+    # custom field classes: one defined inside the app's own package, one
+    # in a third-party package, both at once
+    local, vendor = custom_field_classes()
+    out.append(('AddField.custom-field:project-local', [MU.AddField(
+        'Item', 'n1', local, initial='t', max_length=12)]))
+    out.append(('AddField.custom-field:third-party', [MU.AddField(
+        'Item', 'n1', vendor, initial='t', max_length=12)]))
+    out.append(('AddField.custom-field:both', [
+        MU.AddField('Item', 'n1', local, initial='t', max_length=12),
+        MU.AddField('Item', 'n2', vendor, initial='t', max_length=12),
+        MU.AddField('Item', 'n3', models.IntegerField, null=True)]))
+    # an attribute going back to None
+    out.append(('ChangeField.attr-to-None', [MU.ChangeField(
+        'Item', 't', initial=None, max_length=None)]))
+    return out
+
+
+def custom_field_classes():
+    """TokenField in va.fields (same top-level package as the app) and
+    CodeField in vendorlib.fields; the modules are registered so that the
+    import lines of a rendered evolution resolve."""
+    import sys
+    import types
+    from django.db import models
+    out = []
+    for modname, clsname in (('va.fields', 'TokenField'),
+                             ('vendorlib.fields', 'CodeField')):
+        mod = sys.modules.get(modname)
+        if mod is None or not hasattr(mod, clsname):
+            parent = modname.split('.')[0]
+            if parent not in sys.modules:
+                pm = types.ModuleType(parent)
+                pm.__path__ = []
+                sys.modules[parent] = pm
+            mod = types.ModuleType(modname)
+            cls = type(clsname, (models.CharField,),
+                       {'__module__': modname})
+            setattr(mod, clsname, cls)
+            sys.modules[modname] = mod
+        out.append(getattr(mod, clsname))
     return out
 
 
@@ -201,8 +241,22 @@ def check_constructed(label, muts, add, stats):
     import sys
     stats['texts'] += 1
     start = c03.narrow_start()
+    if label == 'ChangeField.attr-to-None':
+        # a TextField that carries a max_length which the change removes
+        start = S.clone(start)
+        start['apps'][0]['models'][0]['fields'].append(
+            S.F('t', 'Text', max_length=20, null=True))
     img = D.baseline(start, rows=None)
     mods = MZ.install(start)
+    if 'custom-field' in label:
+        # MZ.install re-creates the va package: register va.fields again
+        import sys as _sys
+        _sys.modules.pop('va.fields', None)
+        local, vendor = custom_field_classes()
+        for m in muts:
+            ft = getattr(m, 'field_type', None)
+            if ft is not None and ft.__name__ == 'TokenField':
+                m.field_type = local
     B.restore(img, 'default')
     old_sig = D.stored_signature()
     replay = {'kind': 'constructed', 'label': label}
